@@ -401,4 +401,66 @@ theorem getNextImfMask_over_getNextImf_flag (E : Sig → Sift.Env) (D : Sig → 
 example : (C04.toyO .fixed 2).stop = .fixed ∧ 0 < (C04.toyO .fixed 2).maxIters ∧ 0 < Sift.budget (C04.toyO .fixed 2) :=
   ⟨rfl, by decide, by decide⟩
 
+/-! ### a mask frequency of 0 is a mask (a constant), not "no mask"; the ratio-of-signal amplitude refers to the input
+
+  Only a zero AMPLITUDE reduces to the unmasked extraction (`getNextImfMask_zero_amp`).  A zero FREQUENCY (an entry of
+  a user list such as the docstring's `[.4, .2, .1, .05, .025, 0]`) is the constant `amp · cos(2π i / nphases)`, added
+  before and subtracted after the extraction like any other mask; a shortcut to the unmasked extraction for
+  `mask_freqs[k] == 0` (seeded C07-6) contradicts `getNextImfMask_zero_freq` (witness below).  `mask_sift` treats
+  every frequency alike: `maskSift_peel_wave` holds for every entry of the list, zero included. -/
+
+/-- The masks of frequency 0: mask `i` is the constant `amp · cosTurn (i / nphases)` on every sample; with one phase
+    (`nphases = 1`, phase 0) the masked IMF is the extraction of the SHIFTED signal minus the shift,
+    `X(x + amp·cos 0) − amp·cos 0` — not `X x`. -/
+theorem getNextImfMask_zero_freq (X : Sig → Sig × Bool) (cosTurn : Rat → Rat) (amp : Rat) (p : Nat) (x : Sig)
+    (hX : ∀ y, (X y).1.length = y.length) :
+    (∀ i, waveMask cosTurn x.length 0 amp p i = List.replicate x.length (amp * cosTurn (maskPhase p i))) ∧
+    getNextImfMask X (waveMask cosTurn x.length 0 amp 1) 1 x =
+      (Sig.sub (X (Sig.add x (List.replicate x.length (amp * cosTurn 0)))).1 (List.replicate x.length (amp * cosTurn 0)),
+       (X (Sig.add x (List.replicate x.length (amp * cosTurn 0)))).2) := by
+  have hw : ∀ q i, waveMask cosTurn x.length 0 amp q i = List.replicate x.length (amp * cosTurn (maskPhase q i)) := by
+    intro q i
+    unfold waveMask unitOf Sig.smul
+    rw [List.map_map]
+    have : ((fun v => amp * v) ∘ fun (t : Nat) => cosTurn (0 * (t : Rat) + maskPhase q i))
+        = Function.const Nat (amp * cosTurn (maskPhase q i)) := by
+      funext t
+      simp only [Function.comp, Function.const, Rat.zero_mul, Rat.zero_add]
+    rw [this, List.map_const, List.length_range]
+  refine ⟨hw p, ?_⟩
+  have h0 : maskPhase 1 0 = 0 := by simp [maskPhase]
+  rw [getNextImfMask_eq]
+  unfold phaseAverage
+  have hr : List.range 1 = [0] := rfl
+  simp only [hr, List.map_cons, List.map_nil, List.any_cons, List.any_nil, Bool.or_false, hw 1 0, h0]
+  congr 1
+  have hlen : (Sig.sub (X (Sig.add x (List.replicate x.length (amp * cosTurn 0)))).1
+      (List.replicate x.length (amp * cosTurn 0))).length = x.length := by
+    simp [Sig.sub, Sig.add, hX]
+  exact Ensemble.meanOver_replicate x.length 1 _ (by omega) hlen
+
+/-- **`ratio_sig`: the amplitude of EVERY mask is the supplied ratio times the deviation of the INPUT signal.**
+    If `mask_sift(…, mask_amp_mode='ratio_sig')` returns columns `cols`, then column `k` — for every `k`, not only the
+    first — is the masked extraction of the residual with the masks `(a_k · std x) · cos(2π f_k t + 2π i / nphases)`,
+    where `a_k` is the scalar / k-th array amplitude AS SUPPLIED and `x` is the input of the call: not the running
+    residual, not the previous column, and not an amplitude that earlier layers (or earlier calls) rescaled. -/
+theorem maskSift_ratioSig_amplitudes (σ : Nat → Schedule) (nproc : Nat) (X : Sig → Sig × Bool) (cosTurn : Rat → Rat)
+    (std : Sig → Rat) (cfg : Cfg) (hm : cfg.mode = .ratioSig) (src : FreqSrc) (cap : Nat) (x : Sig) (cols : List Sig)
+    (freqs : List Rat) (hσ : ∀ k, (σ k).Valid cfg.p nproc)
+    (h : maskSift σ X (unitOf cosTurn x.length) std cfg src cap x = .ok (cols, freqs)) :
+    ∀ k, k < cols.length → ∃ a f, ampAt cfg.amp k = some a ∧ freqs[k]? = some f ∧
+      cols[k]? = some (getNextImfMask X (waveMask cosTurn x.length f (a * std x) cfg.p) cfg.p
+        (Sig.sub x (Sig.vsum x.length (cols.take k)))).1 := by
+  intro k hk
+  obtain ⟨a, f, h1, h2, h3⟩ := maskSift_peel_wave σ nproc X cosTurn std cfg src cap x cols freqs hσ h k hk
+  refine ⟨a, f, h1, h2, ?_⟩
+  rw [h3, hm]
+  cases (cols.take k).getLast? <;> rfl
+
+-- witness: zero frequency is NOT the unmasked extraction.  Extractor "square every sample", x = [1], amp = 1,
+-- cos ≡ 1: the masked IMF is (1+1)² − 1 = 3, the unmasked one 1² = 1
+example : (getNextImfMask (fun y => (y.map fun v => v * v, true)) (waveMask (fun _ => 1) 1 0 1 1) 1 [1]).1 = [3] ∧
+    ((fun y : Sig => (y.map fun v => v * v, true)) [1]).1 = [1] := by decide +kernel
+example : ∀ y : Sig, ((fun y : Sig => (y.map fun v => v * v, true)) y).1.length = y.length := fun y => by simp
+
 end C07
